@@ -303,6 +303,8 @@ def _compare(case, when, expected, got) -> None:
         for i in range(1, len(parts) + 1):
             exp.setdefault("/".join(parts[:i]) + "/", b"")
     for rel in sorted(set(exp) | set(got)):
+        if rel.endswith("/"):
+            continue  # directories are not "written files"
         if rel not in got:
             raise Violation("missing-output", f"{when}: {rel} was not written (route {case['route']})")
         if rel not in exp:
